@@ -26,6 +26,10 @@ pub struct Spoof {
     /// carry a well-formed SimCrypto client hello (so the server creates a connection) or a PING
     pub hello: bool,
     pub copies: u8,
+    /// later datagrams from the same spoofed address: a small genuine-looking Initial (PING, next
+    /// packet numbers) followed by this many junk bytes in the same datagram (coalesced remainder)
+    #[serde(default)]
+    pub followups: Vec<u16>,
 }
 
 #[derive(Clone, Debug, Serialize, Deserialize)]
@@ -45,7 +49,11 @@ pub struct Amp {
 pub fn arb_amp() -> impl Strategy<Value = Amp> {
     let g = XferGen { max_faults: 40, aux_ops: 1, rustls_share: 10, max_streams: 2, max_total: 30_000, ..XferGen::default() };
     let spoof = (0u32..3_000_000, prop_oneof![1u16..1200, Just(1199u16), Just(1200u16), 1200u16..=1500], 3u8..40, any::<bool>(), 1u8..4)
-        .prop_map(|(at_us, size, host, hello, copies)| Spoof { at_us, size, host, hello, copies });
+        .prop_map(|(at_us, size, host, hello, copies)| Spoof { at_us, size, host, hello, copies, followups: vec![] });
+    let spoof = (spoof, prop::collection::vec(prop_oneof![0u16..100, 900u16..1400], 0..4)).prop_map(|(mut s, f)| {
+        s.followups = f;
+        s
+    });
     let garb = (0u32..3_000_000, prop_oneof![1u16..64, 20u16..23, 64u16..1500], 3u8..40).prop_map(|(at_us, size, host)| Garbage { at_us, size, host });
     (arb_xfer(g), prop::collection::vec(spoof, 0..6), prop::collection::vec(garb, 0..8), prop_oneof![Just(0u16), 0u16..16_000], any::<bool>()).prop_map(
         |(mut x, spoofs, garbage, flight_pad, heavy_loss)| {
@@ -84,6 +92,10 @@ fn client_hello(scid: &[u8]) -> Vec<u8> {
 }
 
 fn craft_initial(seed: u64, size: usize, hello: bool) -> Vec<u8> {
+    craft_initial_pn(seed, size, hello, 0)
+}
+
+fn craft_initial_pn(seed: u64, size: usize, hello: bool, pn: u64) -> Vec<u8> {
     let a = crate::core::mix(seed, 0xd1);
     let b = crate::core::mix(seed, 0xd2);
     let mut dcid = a.to_le_bytes().to_vec();
@@ -103,7 +115,7 @@ fn craft_initial(seed: u64, size: usize, hello: bool) -> Vec<u8> {
             dcid: &dcid,
             scid: &scid,
             token: &[],
-            pn: 0,
+            pn,
             pn_len: 1,
             key_phase: false,
             payload: &payload,
@@ -130,6 +142,18 @@ pub fn case(a: &Amp) -> CaseOut {
             for c in 0..s.copies as u64 {
                 let id = w.inject(s.at_us as u64 + c * 700, server_addr, addr_v6(0x100 + s.host as u16, 7000 + i as u16), bytes.clone());
                 crafted.push((id, bytes.len(), s.hello));
+            }
+            // follow-up datagrams to the connection the hello created: small Initial + junk remainder
+            if s.hello && s.size >= 1200 {
+                for (j, tail) in s.followups.iter().enumerate() {
+                    let mut d = craft_initial_pn(crate::core::mix(x.net.seed, i as u64), 0, false, 1 + j as u64);
+                    let mut r = crate::core::mix(x.net.seed, 0x7a11 + j as u64);
+                    for _ in 0..*tail {
+                        r = crate::core::mix(r, 1);
+                        d.push(r as u8);
+                    }
+                    w.inject(s.at_us as u64 + 20_000 + 30_000 * j as u64, server_addr, addr_v6(0x100 + s.host as u16, 7000 + i as u16), d);
+                }
             }
         }
     }
